@@ -42,8 +42,7 @@ def m2w(m):
 def gen_op(rng, thorough):
     kinds = ["setLattice", "setLatticeBad", "setU", "setUBad", "setUb", "setUbBad", "setMiscut", "calcUb", "calcUbParallel", "refineUb"]
     w = [16, 4, 14, 3, 10, 3, 16, 10, 4, 8]
-    if thorough:
-        kinds.append("fitUb"); w.append(1)
+    kinds.append("fitUb"); w.append(4 if thorough else 3)     # both refinement entry points change the lattice and / or U through their own route
     return rng.choices(kinds, weights=w)[0]
 
 
